@@ -667,7 +667,7 @@ var (
 	pristineServerACK uacp.Acknowledge
 	pristineCliPtr    *uacp.Acknowledge
 	pristineSrvPtr    *uacp.Acknowledge
-	pristineHello     *[5]uint32 // nil: the wire check is unavailable
+	pristineHello     *[5]uint32  // nil: the wire check is unavailable
 	dirty             atomic.Bool // a case of this process failed: its state can no longer be trusted
 )
 
